@@ -97,7 +97,11 @@ impl<D: Doc> Root<D> {
     let source = self.doc.get_source_mut();
     let input_edit = perform_edit(&mut self.inner, source, &edit);
     self.inner.edit(&input_edit);
+    #[cfg(ast_grep_verif)]
+    crate::verif_hook::emit("tree_edit", "\"by\":\"do_edit\"");
     self.inner = self.doc.parse(Some(&self.inner))?;
+    #[cfg(ast_grep_verif)]
+    crate::verif_hook::emit("reparse", "");
     Ok(())
   }
 
